@@ -9,6 +9,7 @@ import (
 	"errors"
 	"fmt"
 	"net"
+	"sync"
 
 	"github.com/cnotch/ipchub/config"
 	"github.com/cnotch/ipchub/media"
@@ -65,9 +66,10 @@ func (s *tcpPushStream) WritePacket(p *RTPPack) error {
 
 type tcpConsumer struct {
 	*Session
-	closed bool
-	source *media.Stream
-	cid    media.CID
+	closed    bool
+	closeOnce sync.Once // Close 可能同时被消费协程（发送失败）和会话协程（连接断开）调用
+	source    *media.Stream
+	cid       media.CID
 }
 
 func (c *tcpConsumer) Consume(p Pack) {
@@ -102,22 +104,21 @@ func (c *tcpConsumer) Consume(p Pack) {
 }
 
 func (c *tcpConsumer) Close() error {
-	if c.closed {
-		return nil
-	}
-	c.closed = true
-	c.source.StopConsume(c.cid)
-	c.source = nil
+	c.closeOnce.Do(func() {
+		c.closed = true
+		c.source.StopConsume(c.cid)
+	})
 	return nil
 }
 
 type udpConsumer struct {
 	*Session
-	closed   bool
-	source   *media.Stream
-	cid      media.CID
-	udpConn  *net.UDPConn // 用于Player的UDP单播
-	destAddr [rtpChannelCount]*net.UDPAddr
+	closed    bool
+	closeOnce sync.Once // 同 tcpConsumer
+	source    *media.Stream
+	cid       media.CID
+	udpConn   *net.UDPConn // 用于Player的UDP单播
+	destAddr  [rtpChannelCount]*net.UDPAddr
 }
 
 func (c *udpConsumer) Consume(p Pack) {
@@ -137,14 +138,11 @@ func (c *udpConsumer) Consume(p Pack) {
 }
 
 func (c *udpConsumer) Close() error {
-	if c.closed {
-		return nil
-	}
-	c.closed = true
-
-	c.source.StopConsume(c.cid)
-	c.udpConn.Close()
-	c.source = nil
+	c.closeOnce.Do(func() {
+		c.closed = true
+		c.source.StopConsume(c.cid)
+		c.udpConn.Close()
+	})
 	return nil
 }
 
